@@ -162,11 +162,20 @@ def sameMapping (a b : Option Xlat) : Bool :=
   | some x, some y => x.base == y.base && x.size == y.size && x.off == y.off && x.flags == y.flags
   | _, _ => false
 
-/-- Frames that are page tables of the hierarchy rooted at `p4` (levels 4..1). -/
+/-- Frames that are page tables of the hierarchy rooted at `p4` (levels 4..1). Each level is capped
+(a pool never has more than a few hundred frames): in a corrupted hierarchy — a table pointer into
+a frame that was never zeroed, where every garbage word looks like a present entry — the
+enumeration would otherwise grow to 512^3 frames and the driver would not terminate in useful time. -/
 def tableFrames (m : PMem) (p4 : Word) : List Word :=
-  let l3 := (List.range 512).filterMap fun i => match slotOf 4 (m p4 i) with | .table t => some t | _ => none
-  let l2 := l3.flatMap fun t => (List.range 512).filterMap fun i => match slotOf 3 (m t i) with | .table t' => some t' | _ => none
-  let l1 := l2.flatMap fun t => (List.range 512).filterMap fun i => match slotOf 2 (m t i) with | .table t' => some t' | _ => none
+  let cap := 512
+  let children (lvl : Nat) (ts : List Word) : List Word :=
+    ts.foldl (fun acc t =>
+      if acc.length ≥ cap then acc
+      else acc ++ ((List.range 512).filterMap fun i =>
+        match slotOf lvl (m t i) with | .table t' => some t' | _ => none)) []
+  let l3 := (children 4 [p4]).take cap
+  let l2 := (children 3 l3).take cap
+  let l1 := (children 2 l2).take cap
   p4 :: (l3 ++ l2 ++ l1)
 
 def outcomeOfMapCode (c : Nat) : DocOutcome :=
@@ -335,6 +344,13 @@ def handleMapper : SHandler MState := fun _cfg op a impl st =>
           else st.abs
         let allocated : List Word := (allocs.take obs.allocs).filterMap id
         let preTables := tableFrames imPre p4
+        -- recursive mapper: a parent entry created by this call (a link to a table allocated by it,
+        -- on the page's path) carries PRESENT | WRITABLE whatever parent flags were requested
+        -- ("because the design of the recursive page table requires it")
+        let postSlots := parentSlots imPost p4 parents
+        let recLinks := !k.recursive || obs.changes.all (fun (f, i, v) =>
+          !(imPre (w f) i == 0#64 && allocated.contains (tableAddr (w v)) && postSlots.contains (w f, i)) ||
+            (w v &&& 3#64) == 3#64)
         -- C01
         let c01a := probes.all (fun va => walkMatchesAbs imPost p4 abs' va)
         let c01b := (probes.zip obs.probes).all (fun (va, o) => probeMatchesWalk imPost p4 va o)
@@ -352,7 +368,8 @@ def handleMapper : SHandler MState := fun _cfg op a impl st =>
              match walk imPost p4 pageEff with
              | some x => (!(bitRW pflagsEff && bitRW (w flags)) || x.rw) && (!(bitUS pflagsEff && bitUS (w flags)) || x.us)
              | none => false
-           else true)
+           else true) &&
+          recLinks
         -- C02
         let cls := if opcode ≤ 2 then OpClass.map else OpClass.other
         let doc :=
@@ -408,7 +425,7 @@ def handleMapper : SHandler MState := fun _cfg op a impl st =>
           ((st.mask &&& 1 == 0) || c01) && ((st.mask &&& 2 == 0) || c02) &&
           ((st.mask &&& 4 == 0) || c09) && ((st.mask &&& 8 == 0) || c10) &&
           ((st.mask &&& 16 == 0) || (if isOk && opcode ≤ 4 then (obs.res.drop 1).head? == some (toString pageEff) else true))
-        let why := (if (st.mask &&& 1 != 0) && !c01 then s!"C01(a={c01a},b={c01b},nprobe={obs.probes.length}/{probes.length}) " else "") ++ (if (st.mask &&& 2 != 0) && !c02 then "C02 " else "") ++
+        let why := (if (st.mask &&& 1 != 0) && !c01 then s!"C01(a={c01a},b={c01b},reclinks={recLinks},nprobe={obs.probes.length}/{probes.length}) " else "") ++ (if (st.mask &&& 2 != 0) && !c02 then "C02 " else "") ++
           (if (st.mask &&& 4 != 0) && !c09 then "C09 " else "") ++ (if (st.mask &&& 8 != 0) && !c10 then "C10 " else "")
         some ({ model := model, oracleOk := ok, why := why },
               { st with mm := mm', im := im', abs := abs', imPrev := st.im, lastOpcode := opcode,
